@@ -38,7 +38,7 @@ ASSUMPTIONS = [
 LEVEL_TEXT = 'Randomised exploration; each conversion is checked by exact structural oracles, so any inconsistency between tree and text is a concrete counterexample.'
 LEVEL_NOTE = 'Trusted: CPython ast.parse / compile / ast.dump as reference; interception of loader.load_ast.'
 
-GEN = {'unusual': 7, 'def_extras': 50, 'bare_defs': 25, 'excl': ('no_try_else',)}
+GEN = {'unusual': 7, 'def_extras': 50, 'bare_defs': 25, 'excl': ()}
 _KEEP = []
 SHARED_OK = (ast.expr_context, ast.operator, ast.unaryop, ast.cmpop, ast.boolop)
 FEATURE_SETS = [[], [], ['BUILTIN_FUNCTIONS'], ['EQUALITY_OPERATORS'], ['LISTS'], ['ASSERT_STATEMENTS'],
